@@ -7,10 +7,13 @@ CONSTANTS
   MaxLines = 1
   MaxElems = 0
   SaveAsSet = {"none"}
-  Modes = {"deleted", "truncated", "nonjson", "unknown", "shape", "datagone"}
+  Modes = {"deleted", "truncated", "nonjson", "unknown", "shape", "datagone", "unopenable"}
   MayFail = TRUE
   OutcomeSet = {"crash"}
   BackedSet = {FALSE}
+  FilterSet = {FALSE}
+  Budget = 2
+  BudgetMode = "per-load"
   RecordMode = "component"
   PoolSet = {FALSE}
   AssembleMode = "index"
